@@ -17,6 +17,12 @@
 //	memory-metamorphic  for a word replaced by a value V beyond what the data can satisfy (V > len),
 //	                    TotalAlloc(decode with V) <= TotalAlloc(decode with len+1) + 1 MiB
 //	memory-anchored     TotalAlloc(decode mutant) <= 64 * TotalAlloc(decode of the valid base) + 1 MiB
+//	input-not-written   the input is handed over inside a larger caller-owned buffer; the call leaves it (and the topics) alone
+//	tree-independent-of-input-buffer  a returned tree renders the same after the caller has overwritten that buffer
+//
+// and, over sequences of calls (seq_test.go): kind "shared" (goroutines decoding with one fresh
+// definition give the sequential outcomes and the process survives) and kind "retention" (live
+// heap does not grow with the number of decodes against freshly parsed, dropped definitions).
 //
 // Memory is measured as the runtime.MemStats.TotalAlloc delta around the library call on
 // the judging goroutine; no absolute number is asserted.
@@ -1019,6 +1025,8 @@ func TestCheck(t *testing.T) {
 	rec.Assume("not asserted: absolute memory numbers; polynomial growth through aliased offsets; which malformed inputs are rejected (lenient acceptance is allowed); the re-encode clause for event trees in which an indexed value was surfaced as a raw topic (the tree is then not typed by the parameter list)")
 	rec.Assume("quantifier: array element types of zero encoded size and zero-length fixed arrays are excluded")
 	k := evid.NewKind(rec, "bytes", judge)
+	kShared := evid.NewKind(rec, "shared", judgeShared)
+	kRet := evid.NewKind(rec, "retention", judgeRetention)
 	setup(rec, k)
 	r := &runner{rec: rec, k: k, cur: currentFile(rec)}
 	_ = os.Remove(r.cur)
@@ -1040,10 +1048,8 @@ func TestCheck(t *testing.T) {
 	}
 
 	// sequence kinds (no per-call memory measurement here; a fatal runtime error is attributed through the declared-case file)
-	kShared := evid.NewKind(rec, "shared", judgeShared)
-	kRet := evid.NewKind(rec, "retention", judgeRetention)
 	rec.Assume("retention: live heap = runtime.MemStats.HeapAlloc after two forced collections; judged relatively: growth over N dropped decodes <= 16 x (measured footprint of one held definition + tree) + 512 KiB")
-	rec.Rapid(t, "shared", rec.N(40, 150), func(rt *rapid.T) {
+	rec.Rapid(t, "shared", rec.N(40, 100), func(rt *rapid.T) {
 		c, nt, cl := genSharedCase(rt)
 		declareKind(r.cur, "shared", &c)
 		kShared.Check(rt, c, nt, cl...)
